@@ -46,6 +46,16 @@ func uniHuge() []*doc.Tree {
 		kids = append(kids, doc.Spec{K: "e", N: "a", A: []doc.AttrS{{N: "a", V: "1"}}, C: []doc.Spec{{K: "e", N: []string{"a", "b"}[i%2]}, {K: "t", V: "1"}}})
 	}
 	out = append(out, doc.Build([]doc.Spec{{K: "e", N: "b", C: kids}}))
+	// two parallel branches, 140 levels deep, same names and sibling positions all the way down
+	// (a node key must take the whole path to the root into account)
+	chain := func() doc.Spec {
+		s := doc.Spec{K: "e", N: "b"}
+		for i := 0; i < 140; i++ {
+			s = doc.Spec{K: "e", N: "a", C: []doc.Spec{s}}
+		}
+		return s
+	}
+	out = append(out, doc.Build([]doc.Spec{{K: "e", N: "b", C: []doc.Spec{chain(), chain()}}}))
 	uniMu.Lock()
 	uniCache["Huge"] = out
 	uniMu.Unlock()
@@ -183,6 +193,12 @@ func c11Spaces(tier string) []*explore.Space {
 			}
 		}
 	}
+	// a node-set returning FUNCTION as operand: reverse(A) | B, B | reverse(A), (reverse(A)) | B
+	for _, a := range ops[:7] {
+		for _, b := range ops[:7] {
+			u4 = append(u4, gen.B("|", gen.F("reverse", a), b), gen.B("|", b, gen.F("reverse", a)), gen.B("|", &gen.Group{E: gen.F("reverse", a)}, b), gen.B("|", gen.F("reverse", a), gen.F("reverse", b)))
+		}
+	}
 	// U5: a union re-evaluated per candidate: host[A | B], host[(A | B) = 'v'],
 	// host[count(A | B) > n], host/(A | B) after a multi-node step
 	var u5 []gen.Expr
@@ -244,6 +260,8 @@ func c11Spaces(tier string) []*explore.Space {
 		gen.B("|", relPath(gen.Ch("*"), gen.Ch("*")), relPath(gen.Ch("*"), gen.Ch("*"))), gen.B("|", relPath(gen.Ch("*"), gen.At("*")), relPath(gen.Ch("*"), gen.At("*"))),
 		gen.B("|", relPath(gen.Ch("*"), gen.Ch("text()")), relPath(gen.Ch("*"), gen.Ch("node()"))),
 		&gen.Path{Steps: []gen.Step{gen.Ch("*"), {Seq: []gen.Step{gen.Ch("a"), gen.Ch("b")}}}},
+		gen.B("|", gen.AbsP(gen.DSlash(), gen.Ch("b")), gen.AbsP(gen.DSlash(), gen.Ch("nosuch"))), gen.B("|", gen.AbsP(gen.DSlash(), gen.Ch("b")), gen.AbsP(gen.DSlash(), gen.Ch("b"))),
+		gen.B("|", relPath(gen.St("descendant", "b")), relPath(gen.St("descendant", "b"), gen.DotDot())),
 	} {
 		u7 = append(u7, e)
 	}
